@@ -111,9 +111,18 @@ def run_shard(spec, res):
             data = text.encode('utf-8')
             n = len(data)
             parts = None
-            if n > 14 and tier == 'quick':
+            if n > (14 if tier == 'quick' else 18):
                 # every single cut point and every pair of cut points (covers every boundary inside every multi-byte character), plus byte-by-byte
                 parts = [[n]] + [[i, n - i] for i in range(1, n)] + [[i, j - i, n - j] for i in range(1, n) for j in range(i + 1, n)] + [[1] * n]
+                if tier == 'thorough':
+                    parts += [[i, j - i, k - j, n - k] for i in range(1, n) for j in range(i + 1, n) for k in range(j + 1, n)]
+                    for _ in range(20000):
+                        lens, left = [], n
+                        while left:
+                            c = min(left, rng.choice([1, 1, 2, 3, 4]))
+                            lens.append(c)
+                            left -= c
+                        parts.append(lens)
             cases = []
             for policy in POLICIES:
                 for comment in (None, '#'):
@@ -196,7 +205,7 @@ def run_shard(spec, res):
 
 def summarize(tier, seed, m):
     return {
-        'rule': 'every input of 1..%d bytes over {a, quote, comma, LF, CR, #} x all 2^(n-1) chunkings x policies {simple, quoted, quoted_rfc} x comment prefix {none, #} (utf-8 and binary), header on for n <= 4; %d UTF-8 samples with 2-, 3-, 4-byte characters and a leading BOM cut at every byte (all chunkings, or every 1- and 2-cut chunking in the quick tier for samples over 14 bytes); truncated / invalid sequences (both modes must reject); files around the 64 KiB default chunk size through fs.createReadStream; random longer inputs. distinct_nontrivial = (input, configuration) pairs containing a line break, a quote or a multi-byte character.' % (MAXLEN[tier], len(utf8_samples())),
+        'rule': 'every input of 1..%d bytes over {a, quote, comma, LF, CR, #} x all 2^(n-1) chunkings x policies {simple, quoted, quoted_rfc} x comment prefix {none, #} (utf-8 and binary), header on for n <= 4; %d UTF-8 samples with 2-, 3-, 4-byte characters and a leading BOM cut at every byte (all chunkings for samples up to 14 bytes in the quick tier / 18 bytes in the thorough tier; for longer samples every 1- and 2-cut chunking (thorough: also 3-cut and 20000 random chunkings) and byte-by-byte delivery); truncated / invalid sequences (both modes must reject); files around the 64 KiB default chunk size through fs.createReadStream; random longer inputs. distinct_nontrivial = (input, configuration) pairs containing a line break, a quote or a multi-byte character.' % (MAXLEN[tier], len(utf8_samples())),
         'exhaustive': True,
         'required': ['stream_runs', 'bulk_runs', 'utf8_sample_runs', 'bigfile_runs', 'faithful_delivery_traces'],
         'assumptions': ['the bulk reader is the reference for what the file contains (C18 ties it to the Python reader)',
